@@ -679,6 +679,66 @@ def rule_dest_sized(db, chk, cfg, rule="DEST.sized", lib_only=True):
     return n
 
 
+def rule_unsigned_decrement(db, chk, cfg, rule="GUARD.unsigned-decrement", lib_only=True):
+    """A loop that counts an unsigned index down is guarded strictly: `v > e` keeps v above e before every `v--`, whereas `v >= e` lets v
+    reach e and then step to e - 1 - which wraps to the largest value when e is 0 (RDP is called with begin == 0) and is then used as
+    an index.  Every loop that decrements an unsigned local / parameter and tests it relationally: the test is strict, or the bound
+    is a literal of at least 1."""
+    n = 0
+    for f in db.funcs:
+        if f.is_pattern or not f.file or f.body is None:
+            continue
+        if lib_only and not ("/clipper2/" in f.file or "/Clipper2Lib/src/" in f.file):
+            continue
+        seen = set()
+        for lp in walk(f.body):
+            if lp.get("kind") not in ("WhileStmt", "ForStmt", "DoStmt"):
+                continue
+            ks = kids(lp)
+            if lp.get("kind") == "ForStmt":
+                cond = ks[2] if len(ks) >= 4 else None
+            elif lp.get("kind") == "DoStmt":
+                cond = ks[-1]
+            else:
+                cs = [c for c in ks[:-1] if isinstance(c, dict) and c.get("kind")]
+                cond = cs[-1] if cs else None
+            if not isinstance(cond, dict) or not cond.get("kind"):
+                continue
+            decs = {}
+            for y in walk(lp):
+                if y.get("kind") == "UnaryOperator" and y.get("opcode") == "--":
+                    o = strip(kids(y)[0])
+                    if o.get("kind") == "DeclRefExpr" and "unsigned" in (dqt(o) or ""):
+                        decs[o["referencedDecl"].get("id")] = o["referencedDecl"].get("name")
+            if not decs:
+                continue
+            for a in walk(cond):
+                if a.get("kind") != "BinaryOperator" or a.get("opcode") not in ("<", ">", "<=", ">="):
+                    continue
+                l, r = strip(kids(a)[0]), strip(kids(a)[1])
+                op = a.get("opcode")
+                v = e = None
+                if l.get("kind") == "DeclRefExpr" and l["referencedDecl"].get("id") in decs and op in (">", ">="):
+                    v, e, strict = l, r, op == ">"
+                elif r.get("kind") == "DeclRefExpr" and r["referencedDecl"].get("id") in decs and op in ("<", "<="):
+                    v, e, strict = r, l, op == "<"
+                if v is None:
+                    continue
+                key = (lp.get("line"), canon(a))
+                if key in seen:
+                    continue
+                seen.add(key)
+                n += 1
+                lit_ok = e.get("kind") == "IntegerLiteral" and int(e.get("value", "0")) >= 1
+                ok = strict or lit_ok
+                chk.instance(rule, {"function": f.qual, "loop": where(lp), "guard": canon(a)[:40], "cfg": cfg}, ok=ok)
+                if not ok:
+                    chk.violation(rule, f.qual, "%s|%s" % (canon(v), canon(a)[:30]),
+                                  "the loop at %s decrements the unsigned `%s` under the guard `%s`: when `%s` is 0 the index steps below it and wraps to the largest "
+                                  "value, which the loop then uses (out-of-bounds access)" % (where(lp), canon(v), canon(a)[:40], canon(e)[:20]), where(a), cfg=cfg)
+    return n
+
+
 # ---------------------------------------------------------------------------
 # HOT.guard: functions that dereference e.outrec are only called on edges known to carry output
 # ---------------------------------------------------------------------------
